@@ -331,6 +331,21 @@ impl Collector {
 }
 
 
+//--- Access for the verification harness
+
+#[cfg(feature = "verif-hooks")]
+impl Collector {
+    /// The path of the archive for the repository with the given URI.
+    ///
+    /// Like the update, this creates the archive's directory.
+    pub fn verif_repository_path(
+        &self, rpki_notify: &uri::Https
+    ) -> Result<PathBuf, Fatal> {
+        self.repository_path(rpki_notify)
+    }
+}
+
+
 //------------ Run -----------------------------------------------------------
 
 /// Using the collector for a single validation run.
@@ -414,11 +429,13 @@ impl<'a> Run<'a> {
     pub fn load_repository(
         &self, rpki_notify: &uri::Https
     ) -> Result<LoadResult, RunFailed> {
+        #[cfg(feature = "verif-hooks")] crate::verif::point("rrdp.check");
         // If we already tried updating, we can return already.
         if let Some(repo) = self.updated.read().get(rpki_notify) {
             return repo.read()
         }
 
+        #[cfg(feature = "verif-hooks")] crate::verif::point("rrdp.getm");
         // Get a clone of the (arc-ed) mutex. Make a new one if there isn’t
         // yet.
         let mutex = {
@@ -429,12 +446,15 @@ impl<'a> Run<'a> {
 
         // Acquire the mutex. Once we have it, see if the repository is
         // up-to-date which happens if someone else had the mutex first.
+        #[cfg(feature = "verif-hooks")] crate::verif::point(&format!("rrdp.lock {:p}", Arc::as_ptr(&mutex)));
         let _lock = mutex.lock();
+        #[cfg(feature = "verif-hooks")] crate::verif::point("rrdp.locked");
         if let Some(repo) = self.updated.read().get(rpki_notify) {
             self.running.write().remove(rpki_notify);
             return repo.read()
         }
 
+        #[cfg(feature = "verif-hooks")] crate::verif::point("rrdp.fetch");
         let mut log = LogBookWriter::new(
             self.collector.config.log_repository_issues.then(|| {
                 format!("RRDP {}: ", rpki_notify)
@@ -470,12 +490,15 @@ impl<'a> Run<'a> {
 
         let res = repo.read()?;
 
+        #[cfg(feature = "verif-hooks")] crate::verif::point("rrdp.fetched");
         // Insert into updated map.
         self.updated.write().insert(rpki_notify.clone(), repo);
 
+        #[cfg(feature = "verif-hooks")] crate::verif::point("rrdp.between");
         // Remove from running.
         self.running.write().remove(rpki_notify);
 
+        #[cfg(feature = "verif-hooks")] crate::verif::point("rrdp.done");
         Ok(res)
     }
 
@@ -945,6 +968,7 @@ impl<'a> RepositoryUpdate<'a> {
         //     temp file and replace it with something new and we will now
         //     copy that to the final location.
 
+        #[cfg(feature = "verif-hooks")] crate::verif::point("store.remove");
         if let Err(err) = fs::remove_file(self.path.as_ref()) {
             if !matches!(err.kind(), io::ErrorKind::NotFound) {
                 error!(
@@ -956,6 +980,7 @@ impl<'a> RepositoryUpdate<'a> {
             }
         }
         drop(archive);
+        #[cfg(feature = "verif-hooks")] crate::verif::point("store.rename");
         if let Err(err) = fs::rename(path.as_ref(), self.path.as_ref()) {
             error!(
                 "Fatal: Failed to move new RRDP repository file {} to {}: {}",
